@@ -149,7 +149,10 @@ def cases(draw, tier):
     conflict = draw(st.integers(0, 11)) == 0
     force_x1 = False
     terms1 = [t for t in TERMS if t[0] != 'X']
-    terms2 = [('t1', []) if (conflict and t[0] == 't1') else t for t in TERMS]
+    # the conflicting version of t1 in g2 has either another arity ([]) or the same arity and kind but another node label
+    # (['B'] against ['A']: only a comparison of the full type sees it -- seeded change C17-9)
+    ctype = (['B'] if draw(st.booleans()) else []) if conflict else None
+    terms2 = [('t1', ctype) if (conflict and t[0] == 't1') else t for t in TERMS]
     pairs = [(a, b) for a in NAMES1 for b in NAMES2 if types1[a] == types2[b]]
     def pairs_of(T): return [p for p in pairs if types1[p[0]] == T]
     c1, c2 = [0], [0]
@@ -197,16 +200,17 @@ def cases(draw, tier):
     r2s += extra(NAMES2, types2, 2, c2, terms2)
     if conflict:
         # make the conflict genuine: both grammars actually use their (differently typed) terminal t1
-        if draw(st.booleans()):
+        if draw(st.booleans()) and r2s and not (ctype and 'B' not in pool[r2s[0]['skeleton']]['nodes']):
             for r in r2s[:1]:
-                r['terms'].append([f'g2t{c2[0]}', 't1', [], []]); c2[0] += 1
+                skn = pool[r['skeleton']]['nodes']
+                r['terms'].append([f'g2t{c2[0]}', 't1', list(ctype), [skn.index('B')] if ctype else []]); c2[0] += 1
         else:
             # the conflicting terminal of g2 sits in a rule whose skeleton exists only in g2 (it never reaches the conjoined
             # grammar, so only the explicit collision check can report it), next to a harmless same-name pair: 'X' is a
             # nonterminal of g1 and a terminal of g2
             pool.append({'fam': 70, 'nodes': list(s_type) + ['B'], 'ext': list(range(len(s_type))), 'nts': []})
             r2s.append({'skeleton': len(pool) - 1, 'lhs': 'S', 'nts': [],
-                        'terms': [[f'g2t{c2[0]}', 't1', [], []], [f'g2t{c2[0] + 1}', 'X', ['B'], [len(s_type)]]]}); c2[0] += 2
+                        'terms': [[f'g2t{c2[0]}', 't1', list(ctype), [len(s_type)] if ctype else []], [f'g2t{c2[0] + 1}', 'X', ['B'], [len(s_type)]]]}); c2[0] += 2
             force_x1 = True
         for r in r1s:
             sk = pool[r['skeleton']]
